@@ -61,7 +61,15 @@ def valid_corpus(rnd):
         texts.append(render(asmmod.cond_program(rnd.choice(structs), lambda i, o: rnd.choice(o))))
     texts.append(".macro m\nldi @0, @1\n.endm\nm r16, 1+2\nm r17, (3)\n")
     texts.append(".macro deep\ndeep\n.endm\ndeep\n")                         # unbounded macro recursion
+    # self- and mutually recursive macros, with everything a body may do before calling itself again
+    for pre in ("nop", ".dseg\n.byte 1\n.cseg", ".eseg\n.db 1\n.cseg", ".org 0x100", ".cseg", "nop\n.cseg\nnop", ".if 1\nnop\n.endif",
+                ".dseg\n.cseg\n.eseg\n.cseg", "nop\n.org 0x20\nnop\n.dseg\n.byte 2\n.cseg"):
+        texts.append(".macro m\n%s\nm\n.endm\nm\n" % pre)
+        texts.append(".macro m\nm\n%s\n.endm\nm\n" % pre)
+        texts.append(".macro a\n%s\nb\n.endm\n.macro b\n%s\na\n.endm\na\n" % (pre, pre))
+        texts.append(".macro m\n%s\nm @0\n%s\nm @0\n.endm\nm r1\n" % (pre, pre))
     texts.append(".equ a = b\n.equ b = a\nldi r16, a\n")
+    texts.append(".equ lowest = 1 << 63\n.equ m1 = -1\n.if lowest % m1\nnop\n.endif\n.dw lowest / m1\n")
     texts.append("ldi r16, " + "(" * 3000 + "1" + ")" * 3000 + "\n")           # deep nesting
     texts.append("ldi r16, " + "-" * 5000 + "1\n")
     texts.append("ldi r16, 1" + "+1" * 20000 + "\n")
